@@ -538,6 +538,13 @@ func (t *glTr) call(x *ast.CallExpr) (string, bool) {
 		cs, ps := t.exprs(x.Args[:2])
 		return t.seq(cs, ps, func(s []string) string { return "(Glb.Go.Lib.appendInt10 " + strings.Join(s, " ") + ")" })
 	}
+	if name == "strconv.FormatInt" {
+		if v, ok := glConst(x.Args[1]); !ok || v.Int64() != 10 {
+			t.die(x, "strconv.FormatInt with a base other than 10")
+		}
+		cs, ps := t.exprs(x.Args[:1])
+		return t.seq(cs, ps, func(s []string) string { return "(Glb.Go.Lib.itoa " + s[0] + ")" })
+	}
 	if name == "strings.Replace" {
 		// only the replace-all form with a non-empty literal `old`
 		if v, ok := glConst(x.Args[3]); !ok || v.Sign() >= 0 {
@@ -1968,6 +1975,21 @@ func extractGoLean() {
 			{File: "util/netutil/filter.go", Recv: "IPv4Filter", Name: "Contains", Args: stArgs + " (ip : Bytes)", Ret: "Bool",
 				Env: filterEnv, Tuples: sizeT, Skip: locks, U32BV: true, Libs: filterLibs,
 				MapFields: map[string]string{"ipMaps": "arr-bool"}},
+		},
+	})
+
+	// TrText (C13): the quoting decision of the text handler
+	textLibs := map[string]glLib{
+		"unicode.IsSpace":     {"Glb.Go.LibText.isSpace P", true, 1},
+		"unicode.IsPrint":     {"Glb.Go.LibText.isPrint P", true, 1},
+		"strconv.AppendQuote": {"Glb.Go.LibText.appendQuote P", true, 1},
+	}
+	glTranslate(glUnit{
+		Module: "TrText", NS: "Glb.Tr.Logger",
+		Imports: []string{"Glb.Go.LibUtf8", "Glb.Go.LibText", "Glb.Generated.Logger"},
+		Funcs: []glFunc{
+			{File: "logger/text_handler.go", Name: "appendTextString", Args: "(P : Glb.TextHandler.Std) (buf : Bytes) (str : Bytes)", Ret: "Bytes", Ptr: ptrBuf, Env: tables,
+				Libs: textLibs, Fuel: map[int]string{0: "(Glb.Go.len str + 1).toNat"}},
 		},
 	})
 }
